@@ -116,7 +116,10 @@ def run_direct(base: str, case: dict) -> str:
     except ValueError:
         return "badline"
     req.content = bytes.fromhex(case["content"])
-    h = make_handler(base, case["cfg"], case.get("via", "ctor"))
+    try:
+        h = make_handler(base, case["cfg"], case.get("via", "ctor"))
+    except ValueError:
+        return "noserver"      # the configuration layer refuses this configuration: no server, no request, no change
     T.set_fault(case.get("fault"), case.get("tag", TAG))
     try:
         resp = asyncio.run(h.handle_upload(req))
@@ -134,7 +137,10 @@ def run_proto(base: str, case: dict) -> str:
     from nauyaca.protocol.response import GeminiResponse
     from nauyaca.server.protocol import GeminiServerProtocol
 
-    h = make_handler(base, case["cfg"], case.get("via", "ctor"))
+    try:
+        h = make_handler(base, case["cfg"], case.get("via", "ctor"))
+    except ValueError:
+        return "noserver"      # the configuration layer refuses this configuration: no server, no request, no change
     data = case["line"].encode("utf-8") + b"\r\n" + bytes.fromhex(case["content"])
     cuts = sorted(set(c for c in case.get("cuts", []) if 0 < c < len(data)))
     chunks = [data[i:j] for i, j in zip([0] + cuts, cuts + [len(data)])]
